@@ -958,6 +958,11 @@ def unpack_to(self, v: Term, n: int, st: State, node) -> List[Term]:
     items = self.iter_items(v, st)
     if items is not None and len(items) == n:
         return items
+    if v.op == "elem" and v.args[0].op == "tuple" and len(v.args[0].args[0]) == n:
+        return [mk("elem", x, v.args[1]) for x in v.args[0].args[0]]
+    if v.op == "elem" and v.args[0].op == "phi":
+        inner = self.unpack_to(v.args[0], n, st, node)
+        return [mk("elem", x, v.args[1]) for x in inner]
     if v.op == "phi":
         a = self.unpack_to(v.args[1], n, st, node)
         b = self.unpack_to(v.args[2], n, st, node)
